@@ -30,6 +30,14 @@ CHECKS = {
             "Decides: wait-group Add/Done pairing around each helper goroutine, closing of every output on every path after the input is drained (covering traversal from Start), distribution shape (every output / exactly the next output / next input with wrap check). Conservation and order over schedules are not decided.",
             "go/types, go/cfg of x/tools v0.29.0",
             "DESIGN.md 5/C06"),
+    "C07": ("static analysis: octagon abstract interpretation of every rank leaf on the order cells <,=,> plus the IEEE-unordered cell, of the swap-and-invert arms and of the dispatcher's nil ladders with opaque predicates (SYM); kind-table comparison; operand-mirror matching; depth-counter delta dataflow on go/cfg (PATH)",
+            "Decides the local ingredients of a total preorder: correct three-way leaves, exact mirrors, undefined-first ladders, agreeing dispatch tables, symmetric operand extraction, balanced depth accounting, sorted map keys, lexicographic loop shape with prefix-first. Transitivity of the composed order over nested values is not decided.",
+            "go/types, go/cfg of x/tools v0.29.0; leaf/ladder spec tables in checker/c07*.go",
+            "DESIGN.md 5/C07"),
+    "C08": ("static analysis: Boolean ladder interpretation of the compare dispatcher (SYM), size-before-content and mirror-operand rules (PATH), call-graph SCC analysis after removal of depth-guarded edges, entry-point reset rule",
+            "Decides: compare and rank dispatch the same kinds and agree on ordered leaves; ladders answer true/false/false; sizes are tested before contents and corresponding parts are compared; every recursion cycle of the collator carries depth accounting (else reported); the depth counter is restored at the public entry points. Equivalence-relation laws over the value universe are not decided.",
+            "go/types, go/cfg of x/tools v0.29.0",
+            "DESIGN.md 5/C08"),
     "C09": ("static analysis: loop-progress forms (PATH), octagon/Fourier-Motzkin abstract interpretation of the merge step under the invariant merged=left+right and of the driver's slice bounds and block tiling (SYM), provenance of element stores, delegation tables",
             "Decides: termination of every sorter loop for every ranker; no invented values; the collections sort their live backing array with the caller's ranker; the merge step is canonical (lesser head taken, cursors consistent, in bounds); the driver merges adjacent, tiling runs between two ping-pong arrays within 0<=left<=middle<=right<=length on all integers; reverse swaps i with len-1-i up to len/2; shuffle only swaps. The global induction over passes is not mechanised.",
             "go/types, go/cfg of x/tools v0.29.0; canonical merge-sort step spec in checker/c09.go",
